@@ -1,559 +1,3 @@
-import CoolerModel.Props.CSRLemmas
-/-!
-# C03 — a 2-D range query equals the same slice of the full matrix
-
-Statements are about `Model/CSR.lean`.  `ps` is the stored pixel table, `offs` the stored
-`bin1_offset` array, `n` the number of bins.  Spans (`get_spans`) are a free unit: every theorem
-holds for ANY span list satisfying the contract `validSpans`.
--/
-set_option linter.unusedSimpArgs false
-set_option linter.unusedVariables false
-
-namespace Cooler.C03
-open Cooler
-
-/-! ## helpers -/
-
-theorem inBox_iff (b : Box) (p : Px) :
-    inBox b p = true ↔ b.i0 ≤ p.i ∧ p.i < b.i1 ∧ b.j0 ≤ p.j ∧ p.j < b.j1 := by
-  simp [inBox, and_assoc]
-
-theorem inBox_eq (b : Box) (p : Px) :
-    inBox b p = (decide (b.i0 ≤ p.i ∧ p.i < b.i1) && inCols b.j0 b.j1 p) := by
-  simp [inBox, inCols, Bool.and_assoc]
-
-theorem spansChain_le : ∀ (spans : List (Nat × Nat)) (a e : Nat), spansChain a spans = some e → a ≤ e := by
-  intro spans
-  induction spans with
-  | nil => intro a e h; simp [spansChain] at h; omega
-  | cons s rest ih =>
-    intro a e h
-    obtain ⟨s0, s1⟩ := s
-    simp only [spansChain] at h
-    split at h
-    · rename_i hc
-      have := ih s1 e h
-      omega
-    · exact absurd h (by simp)
-
-/-- over a chain of consecutive spans the per-span direct reads concatenate to the rows `[a, e)` -/
-theorem chain_direct (ps : Pixels) (hs : RowSorted ps) (offs : List Nat) (n : Nat)
-    (ho : OffsOK ps offs n) (j0 j1 : Nat) :
-    ∀ (spans : List (Nat × Nat)) (a e : Nat), spansChain a spans = some e → e ≤ n →
-      spans.flatMap (fun s => csrDirect ps offs j0 j1 s.1 s.2)
-        = ps.filter (fun p => decide (a ≤ p.i ∧ p.i < e) && inCols j0 j1 p) := by
-  intro spans
-  induction spans with
-  | nil =>
-    intro a e h _
-    simp only [spansChain, Option.some.injEq] at h
-    subst h
-    simp only [List.flatMap_nil]
-    symm
-    rw [List.filter_eq_nil_iff]
-    intro p _
-    simp only [Bool.and_eq_true, decide_eq_true_eq, not_and]
-    intro h; omega
-  | cons s rest ih =>
-    intro a e h he
-    obtain ⟨s0, s1⟩ := s
-    simp only [spansChain] at h
-    split at h
-    · rename_i hc
-      obtain ⟨rfl, hle⟩ := hc
-      have hle2 := spansChain_le rest s1 e h
-      rw [List.flatMap_cons, ih s1 e h he, csrDirect_eq_filter ps hs offs n ho j0 j1 s0 s1 (by omega)]
-      have e1 : ∀ (A : Px → Bool), ps.filter (fun p => A p && inCols j0 j1 p)
-          = (ps.filter A).filter (inCols j0 j1) := by
-        intro A
-        rw [List.filter_filter]
-        apply List.filter_congr
-        intro p _
-        rw [Bool.and_comm]
-      rw [e1, e1, e1, ← List.filter_append, filter_rows_append ps hs hle hle2]
-    · exact absurd h (by simp)
-
-/-- rows `[e, i1)` hold no record when the row pointer does not move -/
-theorem empty_tail (ps : Pixels) (hs : RowSorted ps) {e i1 : Nat} (h : e ≤ i1)
-    (hoff : off ps e = off ps i1) : ps.filter (fun p => decide (e ≤ p.i ∧ p.i < i1)) = [] := by
-  rw [← rowsSlice_eq_filter ps hs e i1 h]
-  unfold rowsSlice slicePx
-  rw [hoff]; simp
-
-/-- all spans together read exactly the stored records of the box, in storage order -/
-theorem spans_direct (ps : Pixels) (hs : RowSorted ps) (offs : List Nat) (n : Nat)
-    (ho : OffsOK ps offs n) (b : Box) (hb : b.i1 ≤ n) (spans : List (Nat × Nat))
-    (hv : validSpans offs b spans = true) :
-    spans.flatMap (fun s => csrDirect ps offs b.j0 b.j1 s.1 s.2) = ps.filter (inBox b) := by
-  unfold validSpans at hv
-  split at hv
-  · rename_i hempty
-    simp only [List.isEmpty_iff] at hv
-    subst hv
-    simp only [List.flatMap_nil]
-    symm
-    rw [List.filter_eq_nil_iff]
-    intro p _
-    rw [inBox_iff]
-    omega
-  · rename_i hne
-    split at hv
-    · rename_i e hch
-      simp only [Bool.and_eq_true, decide_eq_true_eq] at hv
-      obtain ⟨he, hoffs⟩ := hv
-      have hie := spansChain_le spans b.i0 e hch
-      rw [chain_direct ps hs offs n ho b.j0 b.j1 spans b.i0 e hch (by omega)]
-      have hoff : off ps e = off ps b.i1 := by
-        rw [← ho e (by omega), ← ho b.i1 hb]; exact hoffs
-      have htail := empty_tail ps hs he hoff
-      have hsplit := filter_rows_append ps hs hie he
-      rw [htail, List.append_nil] at hsplit
-      have e1 : ∀ (A : Px → Bool), ps.filter (fun p => A p && inCols b.j0 b.j1 p)
-          = (ps.filter A).filter (inCols b.j0 b.j1) := by
-        intro A
-        rw [List.filter_filter]
-        apply List.filter_congr
-        intro p _
-        rw [Bool.and_comm]
-      rw [e1, hsplit, ← e1]
-      apply List.filter_congr
-      intro p _
-      rw [inBox_eq]
-    · exact absurd hv (by simp)
-
-/-! ## direct engine (square storage; `as_pixels` output in either mode) -/
-
-/-- **direct_correct**: `DirectRangeQuery2D(...).get()` returns exactly the stored records inside the
-window, in storage order, whatever valid row spans were chosen. -/
-theorem direct_correct (ps : Pixels) (hs : RowSorted ps) (offs : List Nat) (n : Nat)
-    (ho : OffsOK ps offs n) (b : Box) (hb : b.i1 ≤ n) (spans : List (Nat × Nat))
-    (hv : validSpans offs b spans = true) :
-    queryDirect ps offs b spans = ps.filter (inBox b) := by
-  unfold queryDirect
-  simp only [csrRead, Bool.false_eq_true, if_false]
-  exact spans_direct ps hs offs n ho b hb spans hv
-
-/-- hence the result does not depend on the read chunk size -/
-theorem direct_chunk_independent (ps : Pixels) (hs : RowSorted ps) (offs : List Nat) (n : Nat)
-    (ho : OffsOK ps offs n) (b : Box) (hb : b.i1 ≤ n) (sp1 sp2 : List (Nat × Nat))
-    (h1 : validSpans offs b sp1 = true) (h2 : validSpans offs b sp2 = true) :
-    queryDirect ps offs b sp1 = queryDirect ps offs b sp2 := by
-  rw [direct_correct ps hs offs n ho b hb sp1 h1, direct_correct ps hs offs n ho b hb sp2 h2]
-
-/-- and equals L0 in square mode -/
-theorem direct_eq_spec (ps : Pixels) (hs : RowSorted ps) (offs : List Nat) (n : Nat)
-    (ho : OffsOK ps offs n) (b : Box) (hb : b.i1 ≤ n) (spans : List (Nat × Nat))
-    (hv : validSpans offs b spans = true) :
-    queryDirect ps offs b spans = specWindow false ps b := by
-  rw [direct_correct ps hs offs n ho b hb spans hv]; simp [specWindow]
-
-/-- the model's own span choice satisfies the contract -/
-theorem rowSpans_chain : ∀ (k a : Nat),
-    spansChain a ((List.range' a k).map fun i => (i, i + 1)) = some (a + k) := by
-  intro k
-  induction k with
-  | zero => intro a; simp [spansChain]
-  | succ k ih =>
-    intro a
-    rw [List.range'_succ, List.map_cons]
-    simp only [spansChain, true_and, Nat.le_add_right, if_true]
-    rw [ih (a + 1)]
-    congr 1; omega
-
-theorem rowSpans_valid (offs : List Nat) (b : Box) : validSpans offs b (rowSpans b) = true := by
-  unfold validSpans rowSpans
-  split
-  · simp
-  · rename_i h
-    rw [rowSpans_chain]
-    have : b.i0 + (b.i1 - b.i0) = b.i1 := by omega
-    simp [this]
-
-/-! ## fill-lower engine (symmetric-upper storage) -/
-
-theorem swap_swap (p : Px) : p.swap.swap = p := by cases p; rfl
-
-theorem swap_eq_iff (p q : Px) : p.swap = q ↔ p = q.swap := by
-  constructor
-  · intro h; rw [← h, swap_swap]
-  · intro h; rw [h, swap_swap]
-
-theorem swap_injective : ∀ p q : Px, p.swap = q.swap → p = q := by
-  intro p q h
-  have := congrArg Px.swap h
-  rwa [swap_swap, swap_swap] at this
-
-theorem flatMap_append_perm {α β : Type} (l : List α) (f g : α → List β) :
-    (l.flatMap fun a => f a ++ g a).Perm (l.flatMap f ++ l.flatMap g) := by
-  induction l with
-  | nil => simp
-  | cons a l ih =>
-    simp only [List.flatMap_cons]
-    have h1 : (f a ++ g a ++ List.flatMap (fun a => f a ++ g a) l).Perm
-        (f a ++ g a ++ (List.flatMap f l ++ List.flatMap g l)) := List.Perm.append_left _ ih
-    refine h1.trans ?_
-    have h2 : (g a ++ (List.flatMap f l ++ List.flatMap g l)).Perm
-        (List.flatMap f l ++ (g a ++ List.flatMap g l)) := by
-      rw [← List.append_assoc, ← List.append_assoc]
-      exact List.Perm.append_right _ List.perm_append_comm
-    simp only [List.append_assoc]
-    exact List.Perm.append_left _ h2
-
-/-- content of one sub-box after reflection: the stored records in the box plus the mirror images of
-those that are off the diagonal and whose column lies below the box's row end -/
-def reflSpec (ps : Pixels) (c : Box) : Pixels :=
-  ps.filter (inBox c) ++ ((ps.filter (inBox c)).filter (toDuplex c.i1)).map Px.swap
-
-def pieceSpec (ps : Pixels) (t : Task) : Pixels :=
-  if t.1 then (reflSpec ps t.2).map Px.swap else reflSpec ps t.2
-
-theorem spans_reflect_perm (ps : Pixels) (hs : RowSorted ps) (offs : List Nat) (n : Nat)
-    (ho : OffsOK ps offs n) (c : Box) (hc : c.i1 ≤ n) (spans : List (Nat × Nat))
-    (hv : validSpans offs c spans = true) :
-    (spans.flatMap fun s => csrRead ps offs c s.1 s.2 true).Perm (reflSpec ps c) := by
-  simp only [csrRead, if_true]
-  refine (flatMap_append_perm spans _ _).trans ?_
-  unfold reflSpec
-  rw [spans_direct ps hs offs n ho c hc spans hv]
-  apply List.Perm.append_left
-  have : (spans.flatMap fun s =>
-      ((csrDirect ps offs c.j0 c.j1 s.1 s.2).filter (toDuplex c.i1)).map Px.swap)
-      = ((spans.flatMap fun s => csrDirect ps offs c.j0 c.j1 s.1 s.2).filter (toDuplex c.i1)).map Px.swap := by
-    rw [List.filter_flatMap, List.map_flatMap]
-  rw [this, spans_direct ps hs offs n ho c hc spans hv]
-
-theorem runTask_perm (ps : Pixels) (hs : RowSorted ps) (offs : List Nat) (n : Nat)
-    (ho : OffsOK ps offs n) (spansOf : Box → List (Nat × Nat))
-    (hsp : ∀ c, validSpans offs c (spansOf c) = true) (t : Task) (hc : t.2.i1 ≤ n) :
-    (runTask ps offs spansOf t).Perm (pieceSpec ps t) := by
-  unfold runTask pieceSpec
-  have := spans_reflect_perm ps hs offs n ho t.2 hc (spansOf t.2) (hsp t.2)
-  split
-  · exact this.map _
-  · exact this
-
-theorem mem_reflSpec (ps : Pixels) (c : Box) (q : Px) :
-    q ∈ reflSpec ps c ↔
-      (q ∈ ps ∧ inBox c q = true) ∨
-      (q.swap ∈ ps ∧ inBox c q.swap = true ∧ q.j ≠ q.i ∧ q.i < c.i1) := by
-  unfold reflSpec
-  simp only [List.mem_append, List.mem_filter, List.mem_map, toDuplex, Bool.and_eq_true,
-    decide_eq_true_eq]
-  constructor
-  · rintro (h | ⟨p, ⟨⟨hp, hb⟩, hd⟩, rfl⟩)
-    · exact Or.inl h
-    · right
-      rw [swap_swap]
-      exact ⟨hp, hb, hd.1, hd.2⟩
-  · rintro (h | ⟨hp, hb, h1, h2⟩)
-    · exact Or.inl h
-    · right
-      exact ⟨q.swap, ⟨⟨hp, hb⟩, h1, h2⟩, swap_swap q⟩
-
-theorem mem_pieceSpec (ps : Pixels) (t : Task) (q : Px) :
-    q ∈ pieceSpec ps t ↔
-      (if t.1 then q.swap ∈ reflSpec ps t.2 else q ∈ reflSpec ps t.2) := by
-  unfold pieceSpec
-  split
-  · simp only [List.mem_map]
-    constructor
-    · rintro ⟨p, hp, rfl⟩; rwa [swap_swap]
-    · intro h; exact ⟨q.swap, h, swap_swap q⟩
-  · rfl
-
-theorem mem_specWindow_symm (ps : Pixels) (b : Box) (q : Px) :
-    q ∈ specWindow true ps b ↔
-      inBox b q = true ∧ (q ∈ ps ∨ (q.swap ∈ ps ∧ q.j ≠ q.i)) := by
-  unfold specWindow symCompletion
-  simp only [if_true, List.mem_filter, List.mem_append, List.mem_map, decide_eq_true_eq]
-  constructor
-  · rintro ⟨h | ⟨p, ⟨hp, hd⟩, rfl⟩, hb⟩
-    · exact ⟨hb, Or.inl h⟩
-    · refine ⟨hb, Or.inr ?_⟩
-      rw [swap_swap]; exact ⟨hp, hd⟩
-  · rintro ⟨hb, h | ⟨hp, hd⟩⟩
-    · exact ⟨Or.inl h, hb⟩
-    · exact ⟨Or.inr ⟨q.swap, ⟨hp, hd⟩, swap_swap q⟩, hb⟩
-
-/-- **tasks_total**: for every well-formed window the case split succeeds (the
-`"This shouldn't happen"` branch is unreachable) and produces one of three shapes. -/
-theorem tasks_cases (b : Box) (h0 : b.i0 ≤ b.i1) (h1 : b.j0 ≤ b.j1) :
-    ∃ ts, fillLowerTasks b = some ts ∧
-      (let T := decide (b.i1 > b.j1)
-       let c : Box := if b.i1 > b.j1 then b.transpose else b
-       c.i1 ≤ c.j1 ∧
-       ((ts = [(T, c)] ∧ (c.i0 = c.j0 ∨ (c.i0 < c.j0 ∧ c.i1 ≤ c.j0))) ∨
-        (ts = [(T, ⟨c.i0, c.j0, c.j0, c.j1⟩), (T, ⟨c.j0, c.i1, c.j0, c.j1⟩)] ∧
-            c.i0 < c.j0 ∧ c.j0 < c.i1) ∨
-        (ts = [(!T, ⟨c.j0, c.i0, c.i0, c.i1⟩), (T, ⟨c.i0, c.i1, c.i0, c.j1⟩)] ∧ c.j0 < c.i0))) := by
-  unfold fillLowerTasks
-  by_cases hT : b.i1 > b.j1
-  · have hle : b.j1 ≤ b.i1 := by omega
-    simp only [hT, decide_true, if_true, Box.transpose]
-    by_cases e1 : b.j0 = b.i0
-    · simp [e1, hle]
-    · by_cases e2 : b.j0 < b.i0
-      · by_cases e3 : b.j1 ≤ b.i0
-        · simp [e1, e2, e3, hle]
-        · have e3' : b.i0 < b.j1 := by omega
-          simp [e1, e2, e3, e3', hle]
-      · have e2' : b.i0 < b.j0 := by omega
-        have e4 : b.i0 ≤ b.j0 := by omega
-        simp [e1, e2, e2', e4, hle]
-  · have hle : b.i1 ≤ b.j1 := by omega
-    simp only [hT, decide_false, if_false, Bool.false_eq_true]
-    by_cases e1 : b.i0 = b.j0
-    · simp [e1, hle]
-    · by_cases e2 : b.i0 < b.j0
-      · by_cases e3 : b.i1 ≤ b.j0
-        · simp [e1, e2, e3, hle]
-        · have e3' : b.j0 < b.i1 := by omega
-          simp [e1, e2, e3, e3', hle]
-      · have e2' : b.j0 < b.i0 := by omega
-        have e4 : b.j0 ≤ b.i0 := by omega
-        simp [e1, e2, e2', e4, hle]
-
-theorem flatMap_perm_congr {α β : Type} (l : List α) (f g : α → List β)
-    (h : ∀ a ∈ l, (f a).Perm (g a)) : (l.flatMap f).Perm (l.flatMap g) := by
-  induction l with
-  | nil => simp
-  | cons a l ih =>
-    simp only [List.flatMap_cons]
-    exact (h a (by simp)).append (ih fun x hx => h x (List.mem_cons_of_mem _ hx))
-
-@[simp] theorem swap_i (p : Px) : p.swap.i = p.j := rfl
-@[simp] theorem swap_j (p : Px) : p.swap.j = p.i := rfl
-
-/-- well-formed symmetric-upper store: strictly sorted, upper triangular, offsets = row pointer -/
-structure ValidSymm (ps : Pixels) (offs : List Nat) (n : Nat) : Prop where
-  sorted : StrictSorted ps
-  triu : Triu ps
-  offsOK : OffsOK ps offs n
-
-theorem StrictSorted.rowSorted {ps : Pixels} (h : StrictSorted ps) : RowSorted ps := by
-  unfold StrictSorted RowSorted at *
-  exact h.imp (fun {a b} hab => by unfold keyLt at hab; omega)
-
-theorem StrictSorted.nodup {ps : Pixels} (h : StrictSorted ps) : ps.Nodup := by
-  unfold StrictSorted at h
-  exact h.imp (fun {a b} hab heq => by subst heq; unfold keyLt at hab; omega)
-
-/-- the engine's output is, up to order, the concatenation of the per-sub-box contents -/
-theorem queryFill_perm (ps : Pixels) (offs : List Nat) (n : Nat) (hv : ValidSymm ps offs n)
-    (spansOf : Box → List (Nat × Nat)) (hsp : ∀ c, validSpans offs c (spansOf c) = true)
-    (b : Box) (h0 : b.i0 ≤ b.i1) (h1 : b.j0 ≤ b.j1) (hi : b.i1 ≤ n) (hj : b.j1 ≤ n) :
-    ∃ ts out, fillLowerTasks b = some ts ∧ queryFill ps offs spansOf b = some out ∧
-      out.Perm (ts.flatMap (pieceSpec ps)) := by
-  obtain ⟨ts, hts, hshape⟩ := tasks_cases b h0 h1
-  refine ⟨ts, ts.flatMap (runTask ps offs spansOf), hts, by simp [queryFill, hts], ?_⟩
-  apply flatMap_perm_congr
-  intro t ht
-  apply runTask_perm ps (StrictSorted.rowSorted hv.sorted) offs n hv.offsOK spansOf hsp
-  -- every sub-box has its row end within the table
-  simp only at hshape
-  by_cases hT : b.i1 > b.j1
-  · simp only [hT, if_true, decide_true, Box.transpose] at hshape
-    rcases hshape with ⟨_, (⟨rfl, _⟩ | ⟨rfl, _, _⟩ | ⟨rfl, _⟩)⟩ <;>
-      simp only [List.mem_cons, List.mem_nil_iff, or_false] at ht <;>
-      rcases ht with rfl | rfl <;> simp only [] <;> omega
-  · simp only [hT, if_false, decide_false] at hshape
-    rcases hshape with ⟨_, (⟨rfl, _⟩ | ⟨rfl, _, _⟩ | ⟨rfl, _⟩)⟩ <;>
-      simp only [List.mem_cons, List.mem_nil_iff, or_false] at ht <;>
-      rcases ht with rfl | rfl <;> simp only [] <;> omega
-
-/-- **fillLower_mem**: an entry is emitted iff it lies in the window and belongs to the symmetric
-completion of the stored upper triangle. -/
-theorem fillLower_mem (ps : Pixels) (offs : List Nat) (n : Nat) (hv : ValidSymm ps offs n)
-    (spansOf : Box → List (Nat × Nat)) (hsp : ∀ c, validSpans offs c (spansOf c) = true)
-    (b : Box) (h0 : b.i0 ≤ b.i1) (h1 : b.j0 ≤ b.j1) (hi : b.i1 ≤ n) (hj : b.j1 ≤ n)
-    (out : Pixels) (hout : queryFill ps offs spansOf b = some out) (q : Px) :
-    q ∈ out ↔ q ∈ specWindow true ps b := by
-  obtain ⟨ts, out', hts, hq, hperm⟩ := queryFill_perm ps offs n hv spansOf hsp b h0 h1 hi hj
-  rw [hq] at hout
-  simp only [Option.some.injEq] at hout
-  subst hout
-  rw [hperm.mem_iff, mem_specWindow_symm]
-  obtain ⟨ts', hts', hshape⟩ := tasks_cases b h0 h1
-  rw [hts] at hts'
-  simp only [Option.some.injEq] at hts'
-  subst hts'
-  have ht1 : q ∈ ps → q.i ≤ q.j := fun h => hv.triu q h
-  have ht2 : q.swap ∈ ps → q.j ≤ q.i := fun h => hv.triu q.swap h
-  have hd : q.i = q.j → (q ∈ ps ↔ q.swap ∈ ps) := by
-    intro h
-    have : q.swap = q := by cases q; simp only [Px.swap] at *; subst h; rfl
-    rw [this]
-  simp only at hshape
-  by_cases hT : b.i1 > b.j1
-  · simp only [hT, if_true, decide_true, Box.transpose] at hshape
-    rcases hshape with ⟨hle, (⟨rfl, hc⟩ | ⟨rfl, hc1, hc2⟩ | ⟨rfl, hc⟩)⟩ <;>
-      simp only [List.flatMap_cons, List.flatMap_nil, List.append_nil, List.mem_append,
-        mem_pieceSpec, mem_reflSpec, inBox_iff, swap_i, swap_j, swap_swap, if_true, if_false,
-        Bool.not_true, Bool.false_eq_true] <;>
-      by_cases m1 : q ∈ ps <;> by_cases m2 : q.swap ∈ ps <;>
-      simp only [m1, m2, true_and, false_and, or_false, false_or, and_false, true_or, or_true,
-        and_true] <;>
-      simp only [m1, m2, iff_false, iff_true, not_true_eq_false, not_false_eq_true, imp_false,
-        implies_true] at hd <;>
-      (try have := ht1 m1) <;> (try have := ht2 m2) <;> omega
-  · simp only [hT, if_false, decide_false] at hshape
-    rcases hshape with ⟨hle, (⟨rfl, hc⟩ | ⟨rfl, hc1, hc2⟩ | ⟨rfl, hc⟩)⟩ <;>
-      simp only [List.flatMap_cons, List.flatMap_nil, List.append_nil, List.mem_append,
-        mem_pieceSpec, mem_reflSpec, inBox_iff, swap_i, swap_j, swap_swap, if_true, if_false,
-        Bool.not_false, Bool.false_eq_true] <;>
-      by_cases m1 : q ∈ ps <;> by_cases m2 : q.swap ∈ ps <;>
-      simp only [m1, m2, true_and, false_and, or_false, false_or, and_false, true_or, or_true,
-        and_true] <;>
-      simp only [m1, m2, iff_false, iff_true, not_true_eq_false, not_false_eq_true, imp_false,
-        implies_true] at hd <;>
-      (try have := ht1 m1) <;> (try have := ht2 m2) <;> omega
-
-theorem nodup_map_swap {l : Pixels} (h : l.Nodup) : (l.map Px.swap).Nodup := by
-  unfold List.Nodup at *
-  exact h.map Px.swap (fun a b hab heq => hab (swap_injective a b heq))
-
-theorem symCompletion_nodup (ps : Pixels) (hn : ps.Nodup) (ht : Triu ps) : (symCompletion ps).Nodup := by
-  unfold symCompletion
-  rw [List.nodup_append]
-  refine ⟨hn, nodup_map_swap (hn.sublist List.filter_sublist), ?_⟩
-  intro a ha b hb heq
-  simp only [List.mem_map, List.mem_filter, decide_eq_true_eq] at hb
-  obtain ⟨p, ⟨hp, hne⟩, rfl⟩ := hb
-  have h1 := ht a ha
-  have h2 := ht p hp
-  subst heq
-  simp only [swap_i, swap_j] at h1
-  omega
-
-theorem reflSpec_nodup (ps : Pixels) (hn : ps.Nodup) (ht : Triu ps) (c : Box) : (reflSpec ps c).Nodup := by
-  unfold reflSpec
-  rw [List.nodup_append]
-  refine ⟨hn.sublist List.filter_sublist,
-    nodup_map_swap ((hn.sublist List.filter_sublist).sublist List.filter_sublist), ?_⟩
-  intro a ha b hb heq
-  simp only [List.mem_map, List.mem_filter, toDuplex, Bool.and_eq_true, decide_eq_true_eq] at ha hb
-  obtain ⟨p, ⟨⟨hp, _⟩, hne, _⟩, rfl⟩ := hb
-  have h1 := ht a ha.1
-  have h2 := ht p hp
-  subst heq
-  simp only [swap_i, swap_j] at h1
-  omega
-
-theorem pieceSpec_nodup (ps : Pixels) (hn : ps.Nodup) (ht : Triu ps) (t : Task) : (pieceSpec ps t).Nodup := by
-  unfold pieceSpec
-  split
-  · exact nodup_map_swap (reflSpec_nodup ps hn ht t.2)
-  · exact reflSpec_nodup ps hn ht t.2
-
-/-- **fillLower_nodup**: no element is emitted twice (sub-boxes are disjoint; mirrored entries are
-strictly lower, direct ones upper). -/
-theorem fillLower_nodup (ps : Pixels) (offs : List Nat) (n : Nat) (hv : ValidSymm ps offs n)
-    (spansOf : Box → List (Nat × Nat)) (hsp : ∀ c, validSpans offs c (spansOf c) = true)
-    (b : Box) (h0 : b.i0 ≤ b.i1) (h1 : b.j0 ≤ b.j1) (hi : b.i1 ≤ n) (hj : b.j1 ≤ n)
-    (out : Pixels) (hout : queryFill ps offs spansOf b = some out) : out.Nodup := by
-  obtain ⟨ts, out', hts, hq, hperm⟩ := queryFill_perm ps offs n hv spansOf hsp b h0 h1 hi hj
-  rw [hq] at hout
-  simp only [Option.some.injEq] at hout
-  subst hout
-  rw [hperm.nodup_iff]
-  have hn := StrictSorted.nodup hv.sorted
-  obtain ⟨ts', hts', hshape⟩ := tasks_cases b h0 h1
-  rw [hts] at hts'
-  simp only [Option.some.injEq] at hts'
-  subst hts'
-  simp only at hshape
-  have key : ∀ t1 t2 : Task, (∀ q, q ∈ pieceSpec ps t1 → q ∈ pieceSpec ps t2 → False) →
-      (List.flatMap (pieceSpec ps) [t1, t2]).Nodup := by
-    intro t1 t2 hdis
-    simp only [List.flatMap_cons, List.flatMap_nil, List.append_nil]
-    rw [List.nodup_append]
-    refine ⟨pieceSpec_nodup ps hn hv.triu t1, pieceSpec_nodup ps hn hv.triu t2, ?_⟩
-    intro a ha b hb heq
-    subst heq
-    exact hdis a ha hb
-  by_cases hT : b.i1 > b.j1
-  · simp only [hT, if_true, decide_true, Box.transpose] at hshape
-    rcases hshape with ⟨hle, (⟨rfl, hc⟩ | ⟨rfl, hc1, hc2⟩ | ⟨rfl, hc⟩)⟩
-    · simpa using pieceSpec_nodup ps hn hv.triu _
-    · apply key
-      intro q
-      have ht1 : q ∈ ps → q.i ≤ q.j := fun h => hv.triu q h
-      have ht2 : q.swap ∈ ps → q.j ≤ q.i := fun h => hv.triu q.swap h
-      simp only [mem_pieceSpec, mem_reflSpec, inBox_iff, swap_i, swap_j, swap_swap, if_true,
-        if_false, Bool.not_true, Bool.false_eq_true]
-      by_cases m1 : q ∈ ps <;> by_cases m2 : q.swap ∈ ps <;>
-        simp only [m1, m2, true_and, false_and, or_false, false_or, and_false, true_or, or_true,
-          and_true] <;>
-        (try have := ht1 m1) <;> (try have := ht2 m2) <;> intro ha hb <;> omega
-    · apply key
-      intro q
-      have ht1 : q ∈ ps → q.i ≤ q.j := fun h => hv.triu q h
-      have ht2 : q.swap ∈ ps → q.j ≤ q.i := fun h => hv.triu q.swap h
-      simp only [mem_pieceSpec, mem_reflSpec, inBox_iff, swap_i, swap_j, swap_swap, if_true,
-        if_false, Bool.not_true, Bool.false_eq_true]
-      by_cases m1 : q ∈ ps <;> by_cases m2 : q.swap ∈ ps <;>
-        simp only [m1, m2, true_and, false_and, or_false, false_or, and_false, true_or, or_true,
-          and_true] <;>
-        (try have := ht1 m1) <;> (try have := ht2 m2) <;> intro ha hb <;> omega
-  · simp only [hT, if_false, decide_false] at hshape
-    rcases hshape with ⟨hle, (⟨rfl, hc⟩ | ⟨rfl, hc1, hc2⟩ | ⟨rfl, hc⟩)⟩
-    · simpa using pieceSpec_nodup ps hn hv.triu _
-    · apply key
-      intro q
-      have ht1 : q ∈ ps → q.i ≤ q.j := fun h => hv.triu q h
-      have ht2 : q.swap ∈ ps → q.j ≤ q.i := fun h => hv.triu q.swap h
-      simp only [mem_pieceSpec, mem_reflSpec, inBox_iff, swap_i, swap_j, swap_swap, if_true,
-        if_false, Bool.not_false, Bool.false_eq_true]
-      by_cases m1 : q ∈ ps <;> by_cases m2 : q.swap ∈ ps <;>
-        simp only [m1, m2, true_and, false_and, or_false, false_or, and_false, true_or, or_true,
-          and_true] <;>
-        (try have := ht1 m1) <;> (try have := ht2 m2) <;> intro ha hb <;> omega
-    · apply key
-      intro q
-      have ht1 : q ∈ ps → q.i ≤ q.j := fun h => hv.triu q h
-      have ht2 : q.swap ∈ ps → q.j ≤ q.i := fun h => hv.triu q.swap h
-      simp only [mem_pieceSpec, mem_reflSpec, inBox_iff, swap_i, swap_j, swap_swap, if_true,
-        if_false, Bool.not_false, Bool.false_eq_true]
-      by_cases m1 : q ∈ ps <;> by_cases m2 : q.swap ∈ ps <;>
-        simp only [m1, m2, true_and, false_and, or_false, false_or, and_false, true_or, or_true,
-          and_true] <;>
-        (try have := ht1 m1) <;> (try have := ht2 m2) <;> intro ha hb <;> omega
-
-/-- **fillLower_correct**: the output is, up to order, exactly the sub-block of the symmetric
-completion — every element once, nothing else — for every window and every valid span choice. -/
-theorem fillLower_correct (ps : Pixels) (offs : List Nat) (n : Nat) (hv : ValidSymm ps offs n)
-    (spansOf : Box → List (Nat × Nat)) (hsp : ∀ c, validSpans offs c (spansOf c) = true)
-    (b : Box) (h0 : b.i0 ≤ b.i1) (h1 : b.j0 ≤ b.j1) (hi : b.i1 ≤ n) (hj : b.j1 ≤ n)
-    (out : Pixels) (hout : queryFill ps offs spansOf b = some out) :
-    out.Perm (specWindow true ps b) := by
-  have hspec : (specWindow true ps b).Nodup := by
-    unfold specWindow
-    simp only [if_true]
-    exact (symCompletion_nodup ps (StrictSorted.nodup hv.sorted) hv.triu).sublist List.filter_sublist
-  rw [List.perm_ext_iff_of_nodup
-    (fillLower_nodup ps offs n hv spansOf hsp b h0 h1 hi hj out hout) hspec]
-  intro q
-  exact fillLower_mem ps offs n hv spansOf hsp b h0 h1 hi hj out hout q
-
-/-- the engine always produces a result on a well-formed window -/
-theorem fillLower_total (ps : Pixels) (offs : List Nat) (spansOf : Box → List (Nat × Nat))
-    (b : Box) (h0 : b.i0 ≤ b.i1) (h1 : b.j0 ≤ b.j1) : (queryFill ps offs spansOf b).isSome = true := by
-  obtain ⟨ts, hts, _⟩ := tasks_cases b h0 h1
-  simp [queryFill, hts]
-
-/-- **chunk_independent**: two valid span choices give the same entries -/
-theorem fill_chunk_independent (ps : Pixels) (offs : List Nat) (n : Nat) (hv : ValidSymm ps offs n)
-    (sp1 sp2 : Box → List (Nat × Nat))
-    (h1 : ∀ c, validSpans offs c (sp1 c) = true) (h2 : ∀ c, validSpans offs c (sp2 c) = true)
-    (b : Box) (hb0 : b.i0 ≤ b.i1) (hb1 : b.j0 ≤ b.j1) (hi : b.i1 ≤ n) (hj : b.j1 ≤ n)
-    (o1 o2 : Pixels) (e1 : queryFill ps offs sp1 b = some o1) (e2 : queryFill ps offs sp2 b = some o2) :
-    o1.Perm o2 :=
-  (fillLower_correct ps offs n hv sp1 h1 b hb0 hb1 hi hj o1 e1).trans
-    (fillLower_correct ps offs n hv sp2 h2 b hb0 hb1 hi hj o2 e2).symm
-
-/-- non-vacuity: a concrete symmetric-upper store with its index satisfies `ValidSymm` -/
-example : ValidSymm [⟨0, 0, 5⟩, ⟨0, 2, 1⟩, ⟨1, 1, 7⟩, ⟨2, 3, 4⟩]
-    (csrIndex [⟨0, 0, 5⟩, ⟨0, 2, 1⟩, ⟨1, 1, 7⟩, ⟨2, 3, 4⟩] 4) 4 :=
-  ⟨by unfold StrictSorted; decide, by unfold Triu; decide, offsOK_csrIndex _ _⟩
-
-end Cooler.C03
+-- C03 — property theorems: query engines (C03Core) and dense output (C03Dense)
+import CoolerModel.Props.C03Core
+import CoolerModel.Props.C03Dense
